@@ -2,7 +2,8 @@
 """GenPanicSites: per function of the parser modules (C20), the number of places that can panic by construction
 (unwrap / expect whose receiver is not tested by is_err / is_none / is_ok / is_some on the way, indexing by a literal, explicit
 panic!/unreachable!/todo!/unimplemented!/assert!), plus the functions that call themselves.  The table is compared with a vetted table in
-Coq (C20Proof.v): a new or removed site breaks the theorem and has to be looked at.  Heuristic by design - it counts, the vetted table
+Coq (C20Sites.v): a new site or a new function with sites breaks the theorem and has to be looked at (a removed one does not); so does a
+call, from a checked function, of an unwrapping twin that the vetted table marks as legacy.  Heuristic by design - it counts, the vetted table
 and the models explain."""
 import re, sys, glob, os
 repo = sys.argv[1]
@@ -61,7 +62,7 @@ def unguarded(body):
     n += len(re.findall(r'\b\w+\[\d+\]', body))
     n += len(re.findall(r'\b(?:panic|unreachable|todo|unimplemented|assert|assert_eq|assert_ne)!\s*\(', body))
     return n
-rows, rec = [], []
+rows, rec, bodies = [], [], []
 for rel in FILES:
     path = os.path.join(repo, rel)
     if not os.path.exists(path):
@@ -74,6 +75,7 @@ for rel in FILES:
         key = "%s::%s%s" % (rel[4:-7] if rel.endswith("/mod.rs") else rel[4:], fname, "" if k == 0 else "#%d" % k)
         n = unguarded(body)
         if n: rows.append((key, n))
+        bodies.append((key, fname, body))
         inner = body[1:]
         # a call of the same name: bare, through Self, or through the type the enclosing impl is for (not a method of another value or type)
         for c in re.finditer(r'(?:(\w+)\s*::\s*)?(?<![\w.])%s\s*\(' % re.escape(fname), inner):
@@ -88,4 +90,18 @@ print("From Coq Require Import List String. Import ListNotations. Open Scope str
 print("Definition panic_sites : list (string * nat) := [")
 print(";\n".join('  ("%s", %d%%nat)' % r for r in rows))
 print("].")
+# calls of an underscore-prefixed function that has panic sites (an "unwrapping twin") from a function that is not underscore-prefixed: a twin
+# reached from a checked entry point is a panic site of that entry point (the vetted table says for each twin whether that is allowed)
+twins = {}
+for key, n in rows:
+    nm = key.split("::")[-1].split("#")[0]
+    if nm.startswith("_"): twins.setdefault(nm, []).append(key)
+calls = []
+for key, fname, body in bodies:
+    if fname.startswith("_"): continue
+    for c in re.finditer(r'(?<![\w])(_\w+)\s*\(', body[1:]):
+        if c.group(1) in twins:
+            for tk in twins[c.group(1)]:
+                if (key, tk) not in calls: calls.append((key, tk))
+print("Definition twin_calls : list (string * string) := [" + "; ".join('("%s", "%s")' % c for c in calls) + "].")
 print("Definition self_recursive : list string := [" + "; ".join('"%s"' % r for r in rec) + "].")
